@@ -65,6 +65,9 @@ pub enum Sel {
     ExternFnX(&'static str, &'static str, &'static [(&'static str, &'static str)], &'static str, &'static [&'static str], bool),
     /// builder N: a tuple struct with one field (`struct T(u8)`): structure with the field `_0`
     Newtype(&'static str),
+    /// builder N: a constant the unit keeps abstract (an associated constant of a generic parameter,
+    /// `R::NUM_JOIN_CHANNELS`): (rust path, rust type, Lean term given by a `Raw` item)
+    ExternConst(&'static str, &'static str, &'static str),
 }
 
 pub struct Unit {
@@ -573,6 +576,10 @@ fn translate_unit(repo: &Path, u: &Unit, reg: &mut Registry) -> Res<String> {
                     tr.ty(&rty)?
                 };
                 reg.fns.insert(key.to_string(), FnSig { lean: lean.to_string(), params: ps, ret: r, fallible: *fallible, muts: muts.iter().map(|m| m.to_string()).collect() });
+            }
+            Sel::ExternConst(key, ty, lean) => {
+                let t = int_ty(ty).map(Ty::Int).ok_or(format!("ExternConst {}: not an integer type", key))?;
+                reg.consts.insert(key.to_string(), (t, lean.to_string()));
             }
             Sel::Newtype(name) => {
                 let it = find_in(&|it| matches!(it, Item::Struct(s) if s.ident == name)).ok_or(format!("struct {} not found", name))?;
